@@ -83,6 +83,23 @@ def gen_case(rng):
         p['eps'] = 10 ** rng.uniform(-3, -0.7)
         p['margin'] = rng.choice([0.999, 0.99, 1.001, 1.01])
         p['dt'] = rng.choice(['f64', 'f64', 'c128'])
+        # optionally insert singleton modes (interior or at the ends): consecutive bonds then see the same unfolding and
+        # each of them truncates again, so the allowance must be split over *all* d-1 bonds
+        ones_at = []
+        if rng.random() < 0.5:
+            k1 = 1 if d == 4 else rng.randint(1, 3)
+            ones_at = sorted(rng.randint(0, d) for _ in range(k1))
+        p['ones_at'] = ones_at
+        dtot = d + len(ones_at)
+        m = (dtot - 1) ** 2 + rng.randint(0, 2)
+        n = big + m
+        p['N'] = [n] * d
+        p['m'] = m
+        p['dcore'] = d
+        shape = [n] * d
+        for pos in ones_at:
+            shape.insert(pos, 1)
+        p['N'] = shape
     elif cls == 'tie':
         spec, nrm = rng.choice(PYTH[:-1])
         d = rng.choice([2, 2, 3])
@@ -107,7 +124,7 @@ def gen_case(rng):
     if p['ttm']:
         p['shape_arg'] = True
     # layout of the dense source when an explicit shape is passed (the constructor reshapes first)
-    p['layout'] = rng.choice(['natural', 'natural', 'flat', 'matrix', 'unit_axis'])
+    p['layout'] = rng.choice(['natural', 'natural', 'flat', 'matrix', 'unit_axis', 'regroup'])
     # the contract is relative: the whole array may be tiny or huge
     p['global_scale'] = rng.choice([0, 0, 0, -30, -20, -17, -12, 12, 25]) if p['dt'] in ('f64', 'c128') else 0
     # complex sources may be lazily conjugated views (conj bit set), as produced by torch.conj
@@ -144,8 +161,12 @@ def build_dense(p):
         else:
             known = p['R']
     elif cls == 'saturate':
-        n = N[0]
-        delta = p['eps'] / math.sqrt(d - 1)
+        n = max(N)
+        ones_at = p.get('ones_at', [])
+        dc = p.get('dcore', d)
+        dtot = dc + len(ones_at)
+        d = dc
+        delta = p['eps'] / math.sqrt(dtot - 1)
         s = [1.0 + 0.3 * i for i in range(p['big'])][::-1]
         nb = math.sqrt(sum(v * v for v in s))
         # tails equal margin*delta*||A|| (solve for the norm including the tails)
@@ -154,7 +175,9 @@ def build_dense(p):
         tot = nb / math.sqrt(max(1e-12, 1 - p['m'] * t * t))
         s = s + [t * tot] * p['m']
         A = superdiag(s, d, n, dt, g)
-        known = [1] + [len(s)] * (d - 1) + [1]
+        for pos in ones_at:
+            A = A.unsqueeze(pos)
+        known = None
         generic = False
     elif cls == 'tie':
         A = superdiag([float(v) for v in p['spec']], d, N[0], dt, g, rotate=p['rotate'])
@@ -176,10 +199,14 @@ def call_ctor(p, A):
             A = A.reshape(int(np.prod(p['M'])), int(np.prod(N)))
         elif lay == 'unit_axis':
             A = A.reshape(list(A.shape) + [1])
+        elif lay == 'regroup':
+            # same number of dimensions, other grouping of the entries (e.g. 4x6x4x6 requested as [(8,8),(3,3)])
+            sh = list(A.shape)
+            A = A.reshape(sh[1:] + sh[:1])
         src = A.numpy() if p['src'] == 'numpy' else A
         return TT(src, [(m, n) for m, n in zip(p['M'], N)], **kw)
     if p['shape_arg']:
-        flat = A.reshape(-1) if lay in ('natural', 'flat') else A.reshape(list(A.shape) + [1]) if lay == 'unit_axis' else A.reshape(N[0], -1)
+        flat = A.reshape(-1) if lay in ('natural', 'flat') else A.reshape(list(A.shape) + [1]) if lay == 'unit_axis' else A.reshape(list(A.shape)[1:] + list(A.shape)[:1]) if lay == 'regroup' else A.reshape(N[0], -1)
         src = flat.numpy() if p['src'] == 'numpy' else flat
         return TT(src, shape=list(N), **kw)
     src = A.numpy() if p['src'] == 'numpy' else A
